@@ -9,7 +9,7 @@ units = {'C01': 'channel_holder, enforcement, channel_build, handler_holder, han
          'C08': 'sv_onchain, sv_commit', 'C09': 'sv_sweep, channel_sweep, wallet, handler_setup',
          'C10': 'all channel units, enforcement, secrets, tracker, velocity, kvv_*, node_payments, node_allowlist, node_allowlist_remove, node_allowlist_frame',
          'C11': 'channel_*, node_restore, node_restore_channels, node_ids, node_payments, node_allowlist, node_allowlist_remove, persist_*, handler_blocks',
-         'C12': 'velocity, velocity_window, node_restore, node_payments, persist_node_state, approver_velocity', 'C13': 'tracker, oracle, handler_blocks', 'C14': 'monitor_changes',
+         'C12': 'velocity, velocity_window, node_restore, node_payments, persist_node_state, approver_velocity', 'C13': 'tracker, tracker_watches, oracle, handler_blocks', 'C14': 'monitor_changes',
          'C15': 'monitor_done, monitor_changes, node_ids, node_restore, node_restore_channels',
          'C16': 'kvv_memory, kvv_cloud, kvv_redb', 'C17': 'hmac, hmac_lss', 'C18': 'keys, node_restore_channels', 'C19': 'psbt_stream'}
 by = {c['id']: c for c in m['checks']}
